@@ -115,7 +115,7 @@ Definition inst_acc_spec (c : cfg) (x : name * (acc_desc * bool)) : (name * acc_
   let '(a2, ok) := fold_left cfg_step (match lookup k c with Some l => l | None => [] end) (a1, true) in
   let a3 := {| a_desc := a_desc a2; a_group := a_group a2; a_value := revalidate (a_value a2) (a_dt a2); a_dt := a_dt a2 |} in
   let has_desc := match a_desc a3 with Some _ => true | None => false end in
-  ((k, a3), ok && has_dt && has_desc && dt_consistent (a_dt a3)).
+  ((k, a3), ok && has_dt && has_desc && dt_consistent (a_dt a0) && dt_consistent (a_dt a3)).
 
 Definition inst_spec (module : bool) (full : list (name * (acc_desc * bool))) (c : cfg) : inst :=
   let res := map (inst_acc_spec c) full in
